@@ -363,6 +363,14 @@ def classify_result(r):
         return ["s"]
     return ["b"]
 
+def process_state():
+    st = {"numpy.geterr": sorted(np.geterr().items()),
+          "numpy.printoptions": sorted((a, str(b)) for a, b in np.get_printoptions().items())}
+    if torch is not None:
+        st["torch.is_grad_enabled"] = bool(torch.is_grad_enabled())
+        st["torch.default_dtype"] = str(torch.get_default_dtype())
+    return st
+
 def make_param(spec):
     kind, data = spec
     if kind == "klong":
@@ -433,7 +441,16 @@ def run_case(case, fault_kind, fault_k):
             return canon(k(case["probe_expr"]), [])
         except Exception as e:
             return ["exc", type(e).__name__]
+    def canary():
+        # an evaluation that produces inf under the backend's normal floating-point mode
+        try:
+            return canon(k("1%%[0.0 1.0]"), [])
+        except Exception as e:
+            return ["exc", type(e).__name__]
     f_before = fprobe()
+    canary_before = canary()
+    proc_before = process_state()
+    saved_err = np.geterr()
     cnt_before = gd.get(KGSym("cnt")) if case.get("assigns") else None
     returned = None
     try:
@@ -451,6 +468,11 @@ def run_case(case, fault_kind, fault_k):
     except Exception as e:
         cls, detail = "other", type(e).__name__ + ": " + str(e)[:80]
     final = snapshot()
+    proc_after = process_state()
+    canary_after = canary()
+    np.seterr(**saved_err)      # do not let a leak of one case reach the next one
+    if torch is not None:
+        torch.set_grad_enabled(True)
     cnt_after = gd.get(KGSym("cnt")) if case.get("assigns") else None
     if case.get("assigns"):
         cnt_after = canon(cnt_after, [])
@@ -468,9 +490,9 @@ def run_case(case, fault_kind, fault_k):
             script.append(["x", 1])
         else:
             script.append(["x", 2])
-    extra = {}
+    extra = {"process": [proc_before, proc_after], "canary": [canary_before, canary_after]}
     if case.get("assigns"):
-        extra = {"cnt_after": cnt_after, "final_with_cnt_reset": final_wo}
+        extra.update({"cnt_after": cnt_after, "final_with_cnt_reset": final_wo})
     if returned is not None:
         extra["returned"] = returned
     return {"extra": extra, "class": cls, "detail": detail, "ncalls": st["n"], "init": init, "names": init_names, "snaps": st["snaps"], "args": st["args"],
@@ -527,7 +549,11 @@ def single_params(backend, tier, rng):
            ("fltscalar", ["klong", "2.5"]),
            ("np_f32", ["np", ["float32", [1.0, 2.5]]]),
            ("np_f64", ["np", ["float64", [1.5, 2.0, 3.0]]]),
-           ("np_i64", ["np", ["int64", [3, 1]]])]
+           ("np_i64", ["np", ["int64", [3, 1]]]),
+           # scalars COMPUTED by the backend (a reduction, one update step): NumPy scalars / 0-d tensors, not Python numbers
+           ("computed_scalar", ["klong", "+/[0.25 0.25]"]),
+           ("updated_scalar", ["klong", "(+/[1.0 2.0])-0.1*2.0"]),
+           ("computed_int", ["klong", "+/[1 2]"])]
     if backend == "torch":
         out += [("tt_f64", ["tt", ["float64", [1.0, 2.5, 3.0]]]),
                 ("tt_f32", ["tt", ["float32", [1.0, 2.5]]]),
@@ -546,7 +572,9 @@ def multi_params(backend, tier, rng):
            ("int_intscalar", [["klong", lit([1, 2])], ["klong", "3"]]),
            ("fs_fs", [["klong", "2.0"], ["klong", "3.5"]]),
            ("flt_intscalar", [["klong", lit([1.5, 2.0])], ["klong", "3"]]),
-           ("npf64_npf32", [["np", ["float64", [1.0, 2.0]]], ["np", ["float32", [3.0]]]])]
+           ("npf64_npf32", [["np", ["float64", [1.0, 2.0]]], ["np", ["float32", [3.0]]]]),
+           ("flt_computed", [["klong", lit([1.0, 2.0])], ["klong", "+/[0.25 0.25]"]]),
+           ("computed_computed", [["klong", "(+/[1.0 2.0])-0.1*2.0"], ["klong", "+/[1 2]"]])]
     if backend == "torch":
         out += [("ttf64_ttf32", [["tt", ["float64", [1.0, 2.0]]], ["tt", ["float32", [3.0]]]])]
     if tier == "thorough":
@@ -635,6 +663,17 @@ def build_cases(backend, tier, rng):
             ("arg-jac", "{x∂f;x}", "x*x", "p", "h(p)"),
             ("arg-y-nabla", "{y∇f;y}", "+/x*x", "p", "h(0;p)")):
         cases.append(dict(g1, label=nm, pre=["h::" + body], expr=call, returns=ret, good=good, faults=["raise", "vector"] if "jac" not in nm else ["raise"]))
+    # functions with temporaries evaluated (hence compiled) BEFORE the gradient: f(..) before/after must agree in value AND kind;
+    # nested numeric differentiation (second derivatives, Hessians, a gradient inside the differentiated function)
+    g3 = {"params": [["a", ["klong", "3"]], ["b", ["klong", "1"]], ["p", ["klong", "2"]], ["w", ["klong", lit([1.0, 2.0, 3.0])]], ["q", ["klong", lit([1.0, 2.0])]]],
+          "nilad": False, "form": "scoped", "fname": "f", "good": "+/x*x", "faults": [],
+          "pre": ["g::{[t];t::x*a;t+b}", "s::{[t];t::+/x*x;t*a}", "r::{+/x*x*x}", "hh::{[u];u::x∇r;+/u*u}"]}
+    for nm, expr, probe in (("temp-nabla-sym", "p∇g", "g(2)"), ("temp-nabla-lit", "2∇g", "g(2)"), ("temp-nabla-vec", "w∇s", "s([1 2 3])"),
+                            ("temp:>", "g:>p", "g(2)"), ("temp:>vec", "s:>w", "s([1 2 3])"), ("temp-jac", "w∂{[t];t::x*a;t+b}", "g(2)"),
+                            ("nested-second-derivative", "q∇{+/x∇r}", "r(q)"), ("nested-hessian", "q∂{x∇r}", "r(q)"),
+                            ("nested-grad-under:>", "{+/x∇r}:>q", "r(q)"), ("nested-:>-under-nabla", "q∇{+/r:>x}", "r(q)"),
+                            ("nested-local", "q∇hh", "hh(q)"), ("nested-jac-of-jac", "q∂{+/x∂{x*x}}", "r(q)")):
+        cases.append(dict(g3, label=nm, expr=expr, probe_expr=probe))
     g2 = {"params": [["w", ["klong", lit([5.0])]], ["b", ["klong", "9"]]], "nilad": True, "form": "scoped", "fname": "f", "probe_expr": "fgood()"}
     for nm, body, good in (("locals-multi:>", "{[w b];w::[1.0 2.0];b::3.0;f:>[w b];w,b}", "(+/w*w)+(+/b*b)"),
                            ("locals-multi-jac", "{[w b];w::[1.0 2.0];b::3.0;[w b]∂f;w,b}", "(w*w),b*b")):
@@ -684,6 +723,10 @@ def store_of_snapshot(snap):
             cell = [dt, c[2], [[1, e, []] if dt == 0 else [0, e, []] for e in c[3]]]
             heap.append(cell)
             v = ["a", len(heap) - 1] if tag == "nd" else ["t", len(heap) - 1, c[4]]
+        elif tag == "npscalar" and c[1] == "float64":
+            v = ["f", [0, c[2][0], []]]
+        elif tag == "npscalar" and c[1] in ("int64", "int32"):
+            v = ["i", c[2][0]]
         elif tag == "sym":
             v = ["y", i + 1]
         else:
@@ -739,6 +782,8 @@ def expected_snapshot(mstore, init_vars, n_init_cells, names, init_snap):
     for num, val in vs:
         name = names[num - 1] if num - 1 < len(names) else "new%d" % num
         e = expected_entry(val, heap, init_vars, n_init_cells, None)
+        if num - 1 < len(init_snap) and init_snap[num - 1][1][0] == "npscalar" and num - 1 < len(init_vars) and val == init_vars[num - 1][1]:
+            e = init_snap[num - 1][1]        # an (immutable) NumPy scalar that is still bound: the same object
         if e[0] in ("obj", "sym-or-obj"):
             # functions, symbols and other objects: the initial entry itself (same object)
             e = init_snap[e[1]][1] if e[1] < len(init_snap) else e
@@ -781,6 +826,13 @@ def compare_case(chk, backend, case, fault, r, m):
             prop = {"what": "the global assigned by the differentiated function is not what the function assigned",
                     "expected": ["int", expect_cnt], "after": r["extra"]["cnt_after"]}
         final_for_oracle = r["extra"]["final_with_cnt_reset"]
+    pb, pa = r["extra"]["process"]
+    cb, ca = r["extra"]["canary"]
+    if pb != pa:
+        prop = {"what": "process-wide numeric state differs after the gradient expression",
+                "before": {k: v for k, v in pb.items() if pa.get(k) != v}, "after": {k: v for k, v in pa.items() if pb.get(k) != v}}
+    elif cb != ca:
+        prop = {"what": "1%[0.0 1.0] evaluates differently after the gradient expression", "before": cb, "after": ca}
     if prop is None and case.get("returns") and r["class"] == "ok":
         got, want = r["extra"]["returned"]
         if got != want:
